@@ -19,7 +19,9 @@ CLANG_FLAGS = ['-std=gnu++11', '-DNDEBUG', '-I' + REPO + '/modules', '-I' + REPO
 
 def clang_ast(tu, flt, extra_flags=(), cache_dir=None):
     """Run clang on tu (absolute path) and return the list of JSON documents."""
-    cmd = ['clang++'] + CLANG_FLAGS + list(extra_flags) + ['-Xclang', '-ast-dump=json', '-Xclang', '-ast-dump-filter=' + flt, tu]
+    # ASLR off (setarch -R): node ids are heap addresses; with a deterministic layout several dumps of ONE translation unit
+    # taken with different filters refer to each other consistently
+    cmd = ['setarch', 'x86_64', '-R', 'clang++'] + CLANG_FLAGS + list(extra_flags) + ['-Xclang', '-ast-dump=json', '-Xclang', '-ast-dump-filter=' + flt, tu]
     p = subprocess.run(cmd, stdout=subprocess.PIPE, stderr=subprocess.PIPE, universal_newlines=True)
     if p.returncode != 0:
         raise Unsupported('clang failed on %s: %s' % (tu, p.stderr[-2000:]))
@@ -302,6 +304,8 @@ class Unit:
             if name.startswith(kw): name = name[len(kw):]
         if name in SCALARS: return SCALARS[name]
         if name in self.opaque_records: return self.opaque_records[name]
+        for oq, oc in self.opaque_records.items():
+            if oq.endswith('::' + name) or name.endswith('::' + oq): return oc
         if self.models:
             m = self.models.type_for(name, self)
             if m: return m
@@ -695,7 +699,8 @@ class Unit:
         raise Unsupported('function reference %s outside the unit (in %s)' % (r['name'], self.cur))
 
     def want_stub(self, cid):
-        return ('stub', self.func_cname(cid)) in self.spec or self.func_cname(cid) in self.stub_names
+        nm = self.func_cname(cid)
+        return ('stub', nm) in self.spec or nm in self.stub_names or (('contract', nm) in self.spec and cid not in self.defn)
 
     def e_MemberExpr(self, n):
         base = self.kids(n)[0]
@@ -743,6 +748,13 @@ class Unit:
         st = self.type_of(sub)
         is_ptr = st.strip().endswith('*')
         e = inner
+        try: dt = self.ctype_node(sub)[0]
+        except Unsupported: dt = ''
+        if any(dt.replace('*', '').strip() == oc for oc in self.opaque_records.values()):
+            # opaque records have no layout here: a derived-to-base conversion is a plain pointer cast
+            bt = self.resolve_named(path[-1]['name']) if path else None
+            if bt is None: raise Unsupported('base of opaque record')
+            return '((%s *)(%s))' % (bt, inner) if is_ptr else '(*(%s *)&(%s))' % (bt, inner)
         for p in path:
             bt = self.resolve_named(p['name'])
             if bt is None: raise Unsupported('base ' + p['name'])
@@ -980,7 +992,7 @@ class Unit:
             r = self.models.member_call(self, n, me, base, ks[1:])
             if r is not None:
                 self.count_call(me['name']); return r
-        raise Unsupported('method %s: not defined in the unit and not in the model table (in %s)' % (me.get('name'), self.cur))
+        raise Unsupported('method %s [%s]: not defined in the unit and not in the model table (in %s)' % (me.get('name'), self.func_cname(cid) if cid in self.by_id else 'decl outside the dumps', self.cur))
 
     def addr_text(self, b):
         m = re.match(r'^\(\*([A-Za-z_]\w*)\)$', b)
@@ -1410,6 +1422,9 @@ class Unit:
             d = self.dtor_of_cname(rec)
             if d: self.scopes[-1]['vars'].append('%s(&%s);' % (d, name))
             return
+        if ks and self.strip_tmp(ks[0])['kind'] == 'CXXConstructExpr' and not self.kids(self.strip_tmp(ks[0])) and ('[' in txt or not ct.startswith('struct ') or ct in ('struct iovec', 'struct timeval', 'struct timespec')):
+            self.w(p + '%s;' % txt)      # trivial default initialisation: left uninitialised exactly like C++
+            return
         if ks:
             if is_ref: init = self.addr_of(ks[0])
             elif '[' in txt and self.strip_tmp(ks[0])['kind'] == 'InitListExpr':
@@ -1493,8 +1508,9 @@ class Unit:
         params = []
         if is_method:
             q = self.qname[rec['id']]
-            self.need_record(q)
-            params.append('struct %s *self' % self.mangle(q))
+            rt_self = self.resolve_named(q)
+            if rt_self is None or not rt_self.startswith('struct '): raise Unsupported('receiver type ' + q)
+            params.append('%s *self' % rt_self)
         pi = 0
         for pdecl in node.get('inner', []):
             if pdecl.get('kind') == 'ParmVarDecl':
